@@ -1,4 +1,4 @@
-CONSTANT Dev = {"CreateMisplaced"}
+CONSTANT Dev = {"AttrsNotParallel"}
 CONSTANT Budget = 3
 CONSTANT Inits = {0, 1, 2, 3}
 CONSTANT MaxIx = 2
